@@ -22,7 +22,8 @@ META = {
              "multi-element S in pooled mode; evaluations = (cube, mode, plan) executions. Non-trivial: the plan raises at "
              "an invocation other than the first on a cube with >=2 sub-cubes; distinct by (case hash, mode, plan)"),
     "require": {t: ["mode:serial", "mode:real", "mode:controlled", "plan:empty", "plan:singleton", "plan:multi",
-                    "k=1", "k>=12", "cube:ccube", "cube:xcube", "followup:compared", "raised:identity_checked"]
+                    "k=1", "k>=12", "cube:ccube", "cube:xcube", "followup:compared", "raised:identity_checked",
+                    "interrupt_class:RuntimeError", "interrupt_class:TimeoutError", "interrupt_class:KeyError"]
                 for t in ("quick", "thorough")},
     "exhaustive": {t: "every singleton fault plan (every cancellation point) of every generated cube, in each mode"
                    for t in ("quick", "thorough")},
@@ -42,6 +43,29 @@ def shards(tier):
 
 class Interrupt(Exception):
     pass
+
+
+class InterruptRuntime(Interrupt, RuntimeError):
+    pass
+
+
+class InterruptTimeout(Interrupt, TimeoutError):       # an OSError
+    pass
+
+
+class InterruptKey(Interrupt, KeyError):
+    pass
+
+
+class InterruptValue(Interrupt, ValueError):
+    pass
+
+
+class InterruptArith(Interrupt, ZeroDivisionError):
+    pass
+
+
+INTERRUPT_CLASSES = [Interrupt, InterruptRuntime, InterruptTimeout, InterruptKey, InterruptValue, InterruptArith]
 
 
 def cube_with_k(rng, kind, k):
@@ -98,7 +122,9 @@ def run_plan(ctx, case, mode, plan, seed, fresh_ref, feat):
             i = len(calls)
             calls.append(threading.get_ident())
         if i in plan:
-            e = Interrupt("interrupt at invocation %d" % i)
+            cls = INTERRUPT_CLASSES[(seed + i) % len(INTERRUPT_CLASSES)]
+            ctx.count("interrupt_class:" + cls.__mro__[2].__name__ if cls is not Interrupt else "interrupt_class:Exception")
+            e = cls("interrupt at invocation %d" % i)
             with lock:
                 raised.append(e)
             raise e
